@@ -459,6 +459,10 @@ impl ParsedValue {
             .into());
         };
 
+        // locale the value is taken from: the current one, or the default one for an explicit default.
+        let mut value_locale = top_locale;
+        let mut value = value;
+
         if matches!(value, ParsedValue::Default) {
             // this check is normally done in a later step for optimisations (Locale::make_builder_keys),
             // but we still need to do it here to avoid infinite loop
@@ -466,19 +470,26 @@ impl ParsedValue {
             // pretty niche, but would cause a rustc stack overflow if not done.
             if top_locale == default_locale {
                 return Err(Error::ExplicitDefaultInDefault(key_path.to_owned()).into());
-            } else {
-                return Self::resolve_foreign_key_inner(
-                    foreign_key,
-                    values,
-                    default_locale,
-                    default_locale,
-                    key_path,
-                );
             }
+            value_locale = default_locale;
+            value = match values.get_value_at(default_locale, foreign_key_path) {
+                Some(ParsedValue::Default) => {
+                    return Err(Error::ExplicitDefaultInDefault(key_path.to_owned()).into())
+                }
+                Some(value) => value,
+                None => {
+                    return Err(Error::MissingForeignKey {
+                        foreign_key: foreign_key_path.to_owned(),
+                        locale: default_locale.clone(),
+                        key_path: key_path.to_owned(),
+                    }
+                    .into())
+                }
+            };
         }
 
         // possibility that the foreign key must be resolved too
-        value.resolve_foreign_key(values, top_locale, default_locale, foreign_key_path)?;
+        value.resolve_foreign_key(values, value_locale, default_locale, foreign_key_path)?;
 
         // possibility that args must resolve too
         for arg in args.values() {
